@@ -36,6 +36,8 @@ def run(ctx):
     R.rule_R6_string_compare(ctx, typer, funcs)
     ctx.floor("R6", 2)
     R.rule_G4_handlers(ctx, funcs)
+    R.rule_G6_no_extra_pruning(ctx, typer)
+    ctx.floor("G6", 1)
     hits, stats = lint_program(ctx.p, typer, files={R.RES})
     ctx.instances["G5"] = stats["typed_node"] + stats["typed_node_seq"]
     for h in hits:
